@@ -103,9 +103,11 @@ def _make_handler(sim: Any, h: dict, calls: list) -> Any:
                         "own_fns": [["uappend", "log", tok]], "fns": []})
             p.setdefault("status", {})[f"{h['id']}-a"] = tok + "a"
             p.fns.append(_mk_fn(["uappend", "log", tok]))
+            rec["writes"] = [{"t": sim.now(), "set": {"status": {f"{h['id']}-a": tok + "a"}}, "fns": [["uappend", "log", tok]]}]
             if h.get("sleep"):
                 await asyncio.sleep(float(h["sleep"]))
             p.setdefault("status", {})[f"{h['id']}-b"] = tok + "b"
+            rec["writes"].append({"t": sim.now(), "set": {"status": {f"{h['id']}-b": tok + "b"}}, "fns": []})
             rec["t_end"] = sim.now()
             rec["outcome"] = "ok"
             return None
@@ -774,6 +776,50 @@ def own_inputs(tr: dict) -> dict[int, tuple[dict, list]]:
     return out
 
 
+def daemon_labels(tr: dict) -> tuple[list, list] | None:
+    """The interleaving of the token daemons/timers of one object as labels of the model's `dstep`:
+    the handlers' own log of their writes + the deliveries of their runner tasks (with the server state
+    each started on). Cut before the first delivery that somebody else interleaved with."""
+    toks = [hc for hc in tr["handler_calls"] if hc.get("token") and hc.get("writes")]
+    if not toks:
+        return None
+    uid = toks[0]["uid"]
+    ids = {hc["id"] for hc in toks}
+    events: list[tuple] = []
+    for hc in toks:
+        if hc["uid"] != uid:
+            continue
+        for w in hc["writes"]:
+            events.append((w["t"], 0, {"write": hc["id"], "set": w["set"], "fns": w["fns"]}, None))
+    for o in tr["patch_calls"]:
+        task = o.get("task") or ""
+        if not task.startswith("runner of ") or task[len("runner of "):] not in ids or o["orig"] is None:
+            continue
+        if o["orig_raw"]["metadata"]["uid"] != uid:
+            continue
+        events.append((o["t"], 1, None, o))
+    events.sort(key=lambda e: (e[0], e[1]))
+    labels, calls = [], []
+    for t, _k, lab, o in events:
+        if lab is not None:
+            labels.append(lab)
+            continue
+        if o["interleaved"] or o["outcome"].get("kind") == "cancelled" or any(not isinstance(r["code"], int) or r["code"] >= 500 for r in o["reqs"]) \
+                or any(d[0] == "unknown" for d in o["fns"]):
+            break
+        slips = {}
+        for r in o["reqs"]:
+            if r["slip"] is not None:
+                slips[r["kind"]] = ["setFins", list((r["pre"] or {}).get("metadata", {}).get("finalizers", []))] if r["slip"][0] == "addFin" else r["slip"]
+        labels.append({"deliver": (o["task"])[len("runner of "):], "orig": o["orig"], "server": o["server_before"], "slips": slips,
+                       "faults": {r["kind"]: r["fault"] for r in o["reqs"] if r["fault"]}})
+        calls.append(o)
+    # writes after the last replayed delivery say nothing
+    while labels and "write" in labels[-1]:
+        labels.pop()
+    return (labels, calls) if calls else None
+
+
 def model_requests(tr: dict) -> list[tuple[list, dict]]:
     out = []
     own = own_inputs(tr)
@@ -800,6 +846,7 @@ def model_requests(tr: dict) -> list[tuple[list, dict]]:
 def evaluate(ctx: Ctx, scenarios: list[dict], tie: bool = True) -> None:
     results = run_many(scenarios, wall=40.0)
     reqs, obs = [], []
+    dreqs: list[tuple] = []
     for sc, res in zip(scenarios, results):
         if res.get("stall"):
             # liveness is not C08's subject: a stalled simulation is a harness-level failure (exit 2)
@@ -833,6 +880,25 @@ def evaluate(ctx: Ctx, scenarios: list[dict], tie: bool = True) -> None:
             for req, o in model_requests(tr):
                 reqs.append(req)
                 obs.append((sc, o))
+            dl = daemon_labels(tr)
+            if dl is not None:
+                dreqs.append((["C08.drun", {"sub": bool(sc.get("status_subresource")), "labels": dl[0]}], dl[1], sc))
+    if tie and dreqs:
+        try:
+            douts = c08.ask_driver(ctx, [r for r, _c, _s in dreqs])
+        except leanio.LeanError as e:
+            ctx.tie_fail(f"Lean driver failed: {e}", {"log": e.log})
+            douts = []
+        for (req, calls, sc), out in zip(dreqs, douts):
+            if not out or out[0] != "ok" or len(out[1]) != len(calls):
+                ctx.tie_fail("driver rejected a daemons interleaving", {"request": req, "answer": out, "kind": "closed-loop", "scenario": sc})
+                continue
+            for o, m in zip(calls, out[1]):
+                impl = {"patch": {"fields": o["fields"], "fns": o["fns"]}, **c08.impl_view(o, "patch_obj")}
+                model = {"patch": {"fields": m["fields"], "fns": m["fns"]}, **c08.model_view({"result": m["result"]}, "patch_obj")}
+                ctx.compare("C08 daemons interleaving: delivery", impl, model,
+                            {"kind": "closed-loop", "scenario": sc, "call_t": o["t"], "daemon": m["daemon"]})
+            ctx.count("closed_daemon_interleavings_replayed", min(len(calls), 6))
     if not tie or not reqs:
         return
     try:
